@@ -7,6 +7,7 @@ let items (s : string) : string list =
 let iplist s = List.map bytes_of_hex (items s)
 let show_iplist l = String.concat "," (List.map (fun a -> "x" ^ hex_of_bytes a) l)
 let answer s = if s = "E" then None else Some (iplist (String.sub s 1 (String.length s - 1)))
+let lookups s = if s = "" then [] else List.map answer (String.split_on_char '|' s)
 let script s = List.init (String.length s) (fun i -> s.[i] = '1')
 let b = str_of_bool
 let outcome = function
@@ -40,6 +41,16 @@ let dispatch fn args = match fn, args with
     outcome (revocationClientDial (iplist hosts) (bytes_of_hex h) (answer ans) (script sc))
   | "imgreject", [ips] -> b (rejectImageBoxIPs (iplist ips))
   | "imgdial", [ans; sc] -> outcome (imageBoxDial (answer ans) (script sc))
+  (* check-then-use: scripted resolver = answers to the 1st, 2nd ... lookup, separated by '|' *)
+  | "imgconn", [lk; sc] ->
+    let ((o, calls), rest) = imageBoxConnect (lookups lk) (script sc) in
+    outcome o ^ ";lookups=" ^ hex_of_n calls ^ ";unconsumed=" ^ string_of_int (List.length rest)
+    ^ ";decision=" ^ (match imageBoxDialDecision (nextAnswer (lookups lk)) with None -> "none" | Some a -> hex_of_bytes a)
+  | "revconn", [hosts; h; lk; sc] ->
+    let allowed = allowedRevocationHostSet (iplist hosts) in
+    let ((o, calls), rest) = revocationConnect allowed (bytes_of_hex h) (lookups lk) (script sc) in
+    outcome o ^ ";lookups=" ^ hex_of_n calls ^ ";unconsumed=" ^ string_of_int (List.length rest)
+    ^ ";candidates=" ^ show_iplist (revocationDialCandidates allowed (bytes_of_hex h) (nextAnswer (lookups lk)))
   | "revurl", u -> b (validateRevocationURL (opt_url u))
   | "revredirect", n :: u -> b (revocationRedirect (n_of_hex n) (opt_url u))
   | "imgurl", u -> let (r, ok) = imageBoxRemoteURL (opt_url u) in "remote=" ^ b r ^ ",ok=" ^ b ok
